@@ -106,9 +106,24 @@ func gen(a Args, out *Out) {
 		jobs = append(jobs, job{kind, connsim.Cfg{Mode: 4}})
 		ins = append(ins, in)
 	}
+	rr := rng.Fork()
+	for k := 0; k < 10*mult && (len(focus) == 0 || focus["relay-v1"] || focus["relay-v2"]); k++ {
+		kind, in := connsim.RelayScenario(rr)
+		jobs = append(jobs, job{kind, connsim.Cfg{Mode: 5}})
+		ins = append(ins, in)
+	}
 	results := connsim.RunBatch(ins)
 	for i, j := range jobs {
 		c := j.cfg
+		if c.Mode == 5 {
+			out.Case(j.kind, true, ins[i], results[i].Obs)
+			out.CountN("relayed-packets", ins[i].At(2).AsInt())
+			for _, n := range results[i].Notes {
+				out.Count("inconclusive-observation")
+				out.Note("%s: inconclusive: %s", j.kind, n)
+			}
+			continue
+		}
 		if c.Mode == 4 {
 			out.Case(j.kind, true, ins[i], results[i].Obs)
 			out.CountN("server-connections", ins[i].At(2).AsInt())
